@@ -128,12 +128,39 @@ CHECKS.update({
             "6 C15", SEQ_NOTE + " Stored state = nine core tables (project/user/consumer-type name rows excluded, as for C04).",
             "Coq proof (case analysis over every handler and object-layer exception; pipeline over regenerated tables) + correspondence histories; "
             "mutation stream as search for failing inputs"),
+    'C13': ("proof", "Coq theorems: for any state with unique provider uuids and any filters whose trait / class names exist, GET "
+            "/resource_providers of the model (which follows _get_all_by_filters_from_db stage by stage) lists EXACTLY the existing providers "
+            "that satisfy every supplied filter (rp_matches: name, uuid, in_tree, member_of incl. in:/!/!in:, required incl. in:/!, resources "
+            "with capacity, min/max unit and step), each once; unknown in_tree / uuid / aggregates give the empty list; the answer is 400 "
+            "exactly when a filter is unavailable at the microversion or names an unknown trait or class. Tie: generated states and listing "
+            "queries on the real application compared with the model inside Coq; a disagreement is reported as a concrete failing query.",
+            "6 C13", SEQ_NOTE + " Query-string parsing is modelled as version gates over parsed filters.",
+            "Coq proof of model = declarative specification + differential execution of generated listings (correspondence)"),
+    'C03': ("proof", "PARTIAL and refuted in named corners. Proved: the executable specification spec_candidates enumerates exactly the "
+            "`valid` combinations of the property (sound, complete up to same_creq, distinct); the slot conditions mean what the property "
+            "says (room, traits, aggregates, tree); the code model's per-group single-provider search equals the specification's slot "
+            "condition. NOT proved: whole-pipeline equality of the code model with the specification - it is FALSE: theorems "
+            "C03_refuted_anchor_dedup and C03_refuted_in_tree_pin exhibit states and queries (replayed on the application on every run, "
+            "known findings) on which valid candidates are omitted; a nested sharing provider gives 500 (known finding). Elsewhere equality "
+            "is COMPARED, not proved: every generated case is evaluated three ways inside Coq (application answer, code model, "
+            "specification); any unclassified difference is a violation with the query as replay.",
+            "6 C03", SEQ_NOTE + " Bounded scope of the property (<= 7 providers, <= 3 trees) is the generator's scope; the theorems are unbounded.",
+            "Coq proof (specification soundness/completeness, per-stage equality, refutation witnesses by vm_compute) + three-way differential "
+            "execution as correspondence and search for failing inputs"),
+    'C02': ("proof", "PARTIAL. Proved for the code model (both the observed and the all-anchors result): every provider named by a candidate "
+            "exists and every supplying provider has the summary derived from the stored state. Proved for the specification's candidates "
+            "(compared with the application's on every generated case): per class the placed amounts sum to the total requested, each "
+            "(provider, class) once; suffixed groups in full on the provider their mapping names, unsuffixed classes on a provider of the "
+            "unsuffixed mapping; the write path's capacity check (check_capacity of the allocation-write model) accepts the candidate. Not "
+            "proved: consumer creation and generation compare-and-swap of the claim. The check claims up to 12 candidates of every answer on "
+            "the real application (PUT /allocations for a new consumer at the query's microversion -> 204) and recomputes amounts, mappings "
+            "and provider summaries from the stored tables.",
+            "6 C02", SEQ_NOTE,
+            "Coq proof (pipeline invariant for providers/summaries; claimability against the write model) + three-way differential execution "
+            "+ claiming every returned candidate on the application (oracle)"),
 })
 PENDING = {
-    'C02': 'check not built yet (allocation-candidate model in progress)',
-    'C03': 'check not built yet (allocation-candidate model in progress)',
     'C11': 'check not built yet',
-    'C13': 'check not built yet',
 }
 
 
